@@ -48,7 +48,9 @@ var leafSrc = map[string][]string{
 		"Optional[Verif::Ints]", "Tuple[Verif::Pair, String]", "Tuple[Verif::Pair, 1, 3]", "Variant[Verif::Pair, String]", "Sensitive[Verif::Pair]",
 		"Type[Verif::Pair]", "NotUndef[Verif::Unit]", "Iterable[Verif::Pair]", "Callable[[Verif::Pair], String]", "Array[Array[Verif::Pair, 0, 2]]",
 		"Array[Object[{attributes => {'y' => String}}]]", "Hash[Any, Object[{attributes => {'y' => String}}], 2, 2]", "Hash[Verif::Unit, Any]",
-		"Struct[{'a' => Verif::Pair}]", "Array[Struct[{'a' => Optional[Verif::Ints]}]]"},
+		"Struct[{'a' => Verif::Pair}]", "Array[Struct[{'a' => Optional[Verif::Ints]}]]",
+		// a parameterized Object type (an extension of a known type) and types that hold one
+		"Verif::P[3]", "Array[Verif::P[3]]", "Optional[Verif::P[0]]"},
 }
 
 // object type definitions no loader knows: they travel as Pcore::ObjectType instances (the init hash is written into the
